@@ -6,7 +6,12 @@ misses to Err / Catchall having consumed exactly the value; cross-decoding by co
 Tie: harness/src/bin/c16.rs builds the same value through every API (tuple, derived struct, Param; typed Variant,
 derived enum, dbus_variant_sig!, dbus_variant_var!, Param variant) after 0..15 prefix bytes in both byte orders,
 reads every encoding back with every API, places variants of types outside the case lists between other parameters,
-and asks derived structs for bodies of other signatures. Each output line is compared with the extracted model
+and asks derived structs for bodies of other signatures. The Param tree is built three ways - enum literals (P), the public
+conversion API of params/conversion.rs and params/container_constructors.rs (C: From<T>/From<&T>, TryFrom for Container,
+make_* / push / insert) and the borrowed flavours (R: *Ref variants through make_*_ref) - and decoded Params are read back
+through TryFrom<&Base> / as_* / into_* / From<&Param> (X); the model treats all of these as the identity on the abstract
+value, so C and R are compared with the model's P and X with the model's get_param. Enum set E3 has cases whose signatures
+have 255, 256 and 320 bytes: beyond 255 every API must refuse alike (fix dec59e1). Each output line is compared with the extracted model
 (ocaml/c16, from coq/Wire/C16Ops.v) and - independently of the model - the property predicate is evaluated on the
 implementation's own output.
 """
@@ -38,8 +43,8 @@ def parse_desc(desc):
 
 # maps get at most one entry: two HashMap instances holding the same entries may iterate in different orders, which
 # would make byte-for-byte comparison between APIs meaningless (entry order is covered by C01/C02)
-def gen_value(r, name):
-    return wg.ValGen(r, sizes=(0, 1, 1, 2, 2, 3), dict_sizes=(0, 1, 1)).gen(to_tree(name))
+def gen_value(r, name, sizes=(0, 1, 1, 2, 2, 3)):
+    return wg.ValGen(r, sizes=sizes, dict_sizes=(0, 1, 1)).gen(to_tree(name))
 
 
 # ----------------------------------------------------------------------------- output lines
@@ -62,16 +67,44 @@ def canon_toks(s):
         return "UNPARSABLE:" + s
 
 
-def canon_line(line):
-    """canonical form of an output line: value tokens canonicalised"""
-    d, order = fields(line)
-    out = []
-    for k in order:
-        parts = ["err" if p == "wrongsig" else p for p in d[k].split(",")]      # error variants are not compared
-        parts = [canon_toks(p) if ("_" in p and not p.startswith("ok_")) else ("ok_" + canon_toks(p[3:]) if p.startswith("ok_") else p)
-                 for p in parts]
-        out.append(k + "=" + ",".join(parts))
-    return " ".join(out)
+def canon_field(v):
+    parts = ["err" if p == "wrongsig" else p for p in v.split(",")]      # error variants are not compared
+    parts = [canon_toks(p) if ("_" in p and not p.startswith("ok_")) else ("ok_" + canon_toks(p[3:]) if p.startswith("ok_") else p)
+             for p in parts]
+    return ",".join(parts)
+
+
+ST_ENC, ST_DEC = "TDPCR", "TDPX"
+EN_ENC, EN_DEC = "VDSMPCR", "VDSMPX"
+
+
+def expected_from_model(case, mline):
+    """the model has one Param API: the conversion (C) and borrowed (R) ways of building the tree are P, reading a
+    decoded Param through the conversion API (X) is get_param"""
+    m, _ = fields(mline)
+    if case["op"] not in ("ST", "EN"):
+        return m
+    decs = ST_DEC if case["op"] == "ST" else EN_DEC
+    encs = ST_ENC if case["op"] == "ST" else EN_ENC
+    for a in "CR":
+        if "enc:P" in m:
+            m["enc:" + a] = m["enc:P"]
+        for b in decs:
+            if "dec:P" + b in m:
+                m["dec:%s%s" % (a, b)] = m["dec:P" + b]
+    for a in encs:
+        if "dec:%sP" % a in m:
+            m["dec:%sX" % a] = m["dec:%sP" % a]
+    return m
+
+
+def agrees(case, li, lm):
+    d, _ = fields(li)
+    m = expected_from_model(case, lm)
+    keys = [k for k in d if not k.startswith("sigs:")]
+    if sorted(keys) != sorted(m):
+        return False
+    return all(canon_field(d[k]) == canon_field(m[k]) for k in keys)
 
 
 def predicate(case, line):
@@ -83,16 +116,19 @@ def predicate(case, line):
     want = wg.canon(" ".join(case["toks"]))
     if kind == "ST":
         sig = ("y" * case["prefix"] + erased(case["shape"])).encode().hex()
-        encs = [d.get("enc:" + a, "missing") for a in "TDP"]
-        for a, e in zip("TDP", encs):
+        encs = [d.get("enc:" + a, "missing") for a in ST_ENC]
+        for a in "CR":
+            if d.get("sigs:" + a) != erased(case["shape"]):
+                return "Param::make_signature / sig() / Type::from(&Param) of the tree built by %s: %s" % (a, d.get("sigs:" + a))
+        for a, e in zip(ST_ENC, encs):
             if not e.startswith("ok,"):
                 return "API %s refused a value of the common sub-language" % a
             if e.split(",")[1] != sig:
                 return "API %s produced signature %s, the struct's signature is %s" % (a, e.split(",")[1], sig)
         if len(set(encs)) != 1:
-            return "tuple, derived struct and Param tree produced different signature/bytes"
-        for a in "TDP":
-            for b in "TDP":
+            return "tuple, derived struct and the Param trees (literal, conversion API, borrowed) produced different signature/bytes"
+        for a in ST_ENC:
+            for b in ST_DEC:
                 got = d.get("dec:%s%s" % (a, b), "missing").split(",")
                 if got[0] != "ok":
                     return "encoding by %s not decoded by %s: %s" % (a, b, got[0])
@@ -132,16 +168,29 @@ def predicate(case, line):
         csig = erased(cases[case["case"]][1])
         first = [erased(c[1]) for c in cases].index(csig)
         wantv = wg.canon("v " + csig + " " + " ".join(case["toks"]))
-        encs = [d.get("enc:" + a, "missing") for a in "VDSMP"]
-        for a, e in zip("VDSMP", encs):
+        encs = [d.get("enc:" + a, "missing") for a in EN_ENC]
+        for a in "CR":
+            if d.get("sigs:" + a) != "v/" + csig:
+                return "Param::make_signature / sig() / Type::from(&Param) of the variant built by %s: %s" % (a, d.get("sigs:" + a))
+        if len(csig) > 255:
+            # a variant's signature has at most 255 bytes: every API refuses, and leaves the body as it was
+            untouched = "err,%s,%s" % (("y" * case["prefix"]).encode().hex() or "-",
+                                       bytes((i * 37 + 1) % 256 for i in range(case["prefix"])).hex() or "-")
+            for a, e in zip(EN_ENC, encs):
+                if e.startswith("ok,"):
+                    return "API %s marshalled a variant whose signature has %d bytes" % (a, len(csig))
+                if e != untouched:
+                    return "API %s refused the over-long variant signature but left something in the body" % a
+            return None
+        for a, e in zip(EN_ENC, encs):
             if not e.startswith("ok,"):
                 return "API %s refused a value of the common sub-language" % a
             if e.split(",")[1] != sig:
                 return "API %s produced signature %s" % (a, e.split(",")[1])
         if len(set(encs)) != 1:
             return "the enum APIs produced different bytes for the same variant"
-        for a in "VDSMP":
-            for b in "VDSMP":
+        for a in EN_ENC:
+            for b in EN_DEC:
                 got = d.get("dec:%s%s" % (a, b), "missing").split(",")
                 if got[0] != "ok":
                     return "encoding by %s not decoded by %s: %s" % (a, b, got[0])
@@ -181,11 +230,42 @@ def predicate(case, line):
             if who == "M" and (not got[4].startswith("ok_") or canon_toks(got[4][3:]) != wg.canon(" ".join(case["toks"]))):
                 return "the Variant held by dbus_variant_var!'s Catchall does not give back the value"
         return None
+    if kind == "CV":
+        tag, payload = case["toks"]
+        names = {"y": ("u8", "byte"), "b": ("bool", "bool"), "n": ("i16", "i16"), "q": ("u16", "u16"), "i": ("i32", "i32"),
+                 "u": ("u32", "u32"), "x": ("i64", "i64"), "t": ("u64", "u64")}
+        if tag in names:
+            t, a = names[tag]
+            want_fields = ["try_%s:%s" % (t, payload), "as_%s:%s" % (a, payload), "into_%s:%s" % (a, payload)]
+        elif tag == "d":
+            want_fields = ["try_f64:" + payload, "into_f64:" + payload]
+        elif tag == "s" and case["mode"] == "C":
+            want_fields = ["try_String:" + payload, "as_str:" + payload, "into_string:" + payload]
+        elif tag == "s":
+            want_fields = ["try_str:" + payload, "as_str:" + payload, "into_str:" + payload]
+        else:
+            want_fields = []
+        want_line = " ".join(["sig=" + tag] + want_fields + ["twins=true"])
+        if line != want_line:
+            return "conversions of a Base value: got '%s', the value converts only to its own type: '%s'" % (line[:200], want_line)
+        return None
+    if kind == "CF":
+        if "ACCEPTED" in line.replace("push_right=ACCEPTED", "").replace("insert_right=ACCEPTED", ""):
+            return "a conversion / constructor accepted what it must refuse: " + line
+        for must in ("push_right=ACCEPTED", "insert_right=ACCEPTED", "ok_vec=au", "ok_map=a{ys}", "ok_struct=(ys)", "ok_variant=v",
+                     "empty_vec=refused", "empty_map=refused", "mixed_vec=refused", "push_into_variant=refused"):
+            if must not in line.split(" "):
+                return "conversion / constructor probe: expected %s in: %s" % (must, line)
+        return None
     return "unknown case kind"
 
 
 # ----------------------------------------------------------------------------- cases
 def impl_line(c):
+    if c["op"] == "CV":
+        return "CV %s %s" % (c["mode"], " ".join(c["toks"]))
+    if c["op"] == "CF":
+        return "CF"
     if c["op"] == "ST":
         return "ST %s %s %d %s" % (c["shape"], c["bo"], c["prefix"], " ".join(c["toks"]))
     if c["op"] == "HS":
@@ -208,7 +288,23 @@ def make_cases(ctx, listing, thorough):
     shapes = listing["shapes"].split(",")
     others = listing["others"].split(",")
     sets = {"E1": listing["E1"], "E2": listing["E2"]}
-    cases = []
+    cases = [{"op": "CF", "bo": "le", "toks": []}]
+    # every conversion of a Base value, boundary values of every base type, both construction flavours
+    for mode in "CR":
+        for tag in "ybnqiuxtdsog":
+            for _ in range(12 if thorough else 6):
+                cases.append({"op": "CV", "mode": mode, "bo": "le", "toks": wg.gen_base(r, tag)})
+        for bits in (0, 1 << 63, 0x7FF8000000000000, 0x7FF0000000000001, 0xFFF0000000000000, 0x3FF8000000000000):
+            cases.append({"op": "CV", "mode": mode, "bo": "le", "toks": ["d", str(bits)]})
+        for tag, n in (("n", 0x8000), ("n", 0xFFFF), ("i", 0x80000000), ("i", 0xFFFFFFFF), ("x", 1 << 63), ("x", (1 << 64) - 1)):
+            cases.append({"op": "CV", "mode": mode, "bo": "le", "toks": [tag, str(n)]})
+    # enum cases whose signatures have 255 / 256 / 320 bytes: all three case shapes, all enum flavours
+    desc3 = listing["E3"]
+    for i, (kind, ty) in enumerate(parse_desc(desc3)):
+        for bo in ("le", "be"):
+            for prefix in (range(16) if thorough else sorted(r.sample(range(16), 2))):
+                cases.append({"op": "EN", "set": "E3", "desc": desc3, "bo": bo, "prefix": prefix, "case": i,
+                              "toks": gen_value(r, ty, sizes=(0, 1))})   # small arrays: the model is slow on big bodies
     nval = 30 if thorough else 3
     # structs: every shape x byte order x prefix 0..15
     for sh in shapes:
@@ -276,24 +372,37 @@ def private_driver():
     raise vlib.BrokenTie("extracted c16 driver could not be started", last)
 
 
+MODELLED = ("ST", "HS", "EN", "EO")
+
+
 def run_cases(exe, drv, cases):
     ok, impl, err = vlib.par_run_lines(exe, [], [impl_line(c) for c in cases])
     if not ok:
         raise vlib.BrokenTie("c16 harness crashed", err)
-    ok, model, err = vlib.par_run_lines(drv, [], [model_line(c) for c in cases])
+    model = [None] * len(cases)
+    idx = [i for i, c in enumerate(cases) if c["op"] in MODELLED and c.get("set") != "E3"]
+    ok, mout, err = vlib.par_run_lines(drv, [], [model_line(cases[i]) for i in idx])
     if not ok:
         raise vlib.BrokenTie("extracted c16 model crashed", err)
+    for i, o in zip(idx, mout):
+        model[i] = o
+    # the E3 lines (signatures of 255..320 bytes, bodies of 1.5 kB) take seconds each in the extracted model, whose
+    # validator and cursor work on binary-N indices into lists: one process per line, all cores
+    slow = [i for i, c in enumerate(cases) if c["op"] in MODELLED and c.get("set") == "E3"]
+    if slow:
+        import concurrent.futures as cf
+        with cf.ThreadPoolExecutor(vlib.NPROC) as ex:
+            res = list(ex.map(lambda i: vlib.run_lines(drv, [], [model_line(cases[i])]), slow))
+        for i, (rc, o, e) in zip(slow, res):
+            if rc != 0 or len(o) != 1:
+                raise vlib.BrokenTie("extracted c16 model crashed", "rc=%s %s" % (rc, e[-1000:]))
+            model[i] = o[0]
     return impl, model
 
 
 def run(ctx):
     thorough = ctx.tier == "thorough"
-    ctx.rule = ("case = (scenario, Rust type / enum, byte order, prefix length 0..15 of preceding u8 parameters, value): ST = one struct value "
-                "through tuple, derived struct and Param tree, each encoding decoded by all three; HS = a derived struct asked to read a body "
-                "of another (or its own) signature; EN = one enum case through typed Variant, derived enum, dbus_variant_sig!, "
-                "dbus_variant_var! and Param variant, each encoding decoded by all five; EO = a variant of a type outside the enum's cases "
-                "between other parameters, read by the three enums. Values are boundary-biased; maps have at most one entry. "
-                "non-trivial = everything except HS cases whose other type is not a struct; distinct = distinct case lines")
+    ctx.rule = "set after the cases are generated"
     ctx.trusted = ["Coq 8.16.1 kernel", "extraction (ExtrOcamlBasic only) + ocaml/c16/driver.ml", "harness/src/bin/c16.rs, wirelib.rs",
                    "Wire/SpecEnc.v as the reading of the wire format (through C02 and decoder completeness)"]
     ctx.assumptions = ["usize is 64 bit, native byte order is little endian",
@@ -308,6 +417,21 @@ def run(ctx):
         _, out, _ = vlib.run_lines(exe, [], ["LIST"])
         listing, _ = fields(out[0])
         cases = corpus_cases() + make_cases(ctx, listing, thorough)
+        nop = {}
+        for c in cases:
+            nop[c["op"]] = nop.get(c["op"], 0) + 1
+        ctx.rule = ("case = (scenario, Rust type / enum, byte order, prefix length 0..15 of preceding u8 parameters, value). "
+                    "ST (%d cases this run) = one struct value through tuple, derived struct and the Param tree built three ways (enum literals, the "
+                    "params conversion/constructor API, the borrowed *Ref flavours): 5 encodings x 4 readers (tuple, derived, get_param, get_param read "
+                    "back through TryFrom/as_*/into_*); HS (%d) = a derived struct asked to read a body of another (or its own) signature; "
+                    "EN (%d) = one enum case through typed Variant, derived enum, dbus_variant_sig!, dbus_variant_var! and the three Param variants: "
+                    "7 encodings x 6 readers, including enum E3 whose case signatures have 255, 256 and 320 bytes (beyond 255 all must refuse alike); "
+                    "EO (%d) = a variant of a type outside the enum's cases between other parameters, read by the three enums; CV (%d) = every "
+                    "TryFrom<&Base>/as_*/into_* on one Base built by From<T> or From<&T>/&str; CF (%d) = constructors/conversions that must refuse. "
+                    "The conversions are the identity on the model's abstract value, so C/R are compared with the model's Param API and CV/CF with "
+                    "the predicate only. %d cases in all this run (counted; the design's 'about 5,000' for the quick tier was an estimate). Values are boundary-biased; "
+                    "maps have at most one entry. non-trivial = everything except CF and HS cases whose other type is not a struct; distinct = distinct case lines"
+                    % (nop.get("ST", 0), nop.get("HS", 0), nop.get("EN", 0), nop.get("EO", 0), nop.get("CV", 0), nop.get("CF", 0), len(cases)))
         impl, model = run_cases(exe, drv, cases)
     finally:
         try:
@@ -316,7 +440,7 @@ def run(ctx):
             pass
     for c, li, lm in zip(cases, impl, model):
         line = impl_line(c)
-        nontrivial = not (c["op"] == "HS" and not erased(c["other"]).startswith("("))
+        nontrivial = not (c["op"] == "HS" and not erased(c["other"]).startswith("(")) and c["op"] != "CF"
         ctx.case(line, nontrivial=nontrivial,
                  sample={"case": line[:160], "impl": li[:200]} if (nontrivial and ctx.evaluations % 211 == 0) else None)
         ctx.count("op:" + c["op"])
@@ -325,17 +449,17 @@ def run(ctx):
             ctx.count("prefix%8=" + str(c["prefix"] % 8))
         if c["op"] in ("ST", "HS"):
             ctx.count("shape:" + c["shape"])
-        else:
+        elif c["op"] in ("EN", "EO"):
             ctx.count("set:" + c["set"])
         why = predicate(c, li)
-        agree = canon_line(li) == canon_line(lm)
+        agree = lm is None or agrees(c, li, lm)
         if why:
             ctx.disagreements_checked += 1
-            ctx.violation(why, {"case": c, "line": line, "model_line": model_line(c), "impl": li, "model": lm})
+            ctx.violation(why, {"case": c, "line": line[:4000], "model_line": model_line(c)[:4000], "impl": li[:6000], "model": (lm or "")[:6000]})
         elif not agree:
             ctx.disagreements_checked += 1
             ctx.tie_broken("correspondence: c16 model and implementation differ although the property predicate holds on the implementation's output",
-                           "%s\nimpl : %s\nmodel: %s" % (line, li, lm))
+                           "%s\nimpl : %s\nmodel: %s" % (line[:3000], li[:3000], lm[:3000]))
 
 
 def replay(ctx, body):
